@@ -416,6 +416,16 @@ const CLAP_INVALID: &[&[&str]] = &[
 
 const GO_INVALID: &[&[&str]] = &[
     &["--select", "(zz_nope . 1)=x"],
+    // an option value that is exactly the empty string; a --set name that is only a blank
+    &["--group-by="],
+    &["--filter="],
+    &["--set", " =1"],
+    &["--set", "  =\"x\""],
+    // a text option under JSON output with exactly its default value
+    &["--null-keyword=null"],
+    &["--string-prefix="],
+    // junk in front of a well-formed literal
+    &["--filter=x true"],
     &["--filter=(size ."],
     &["--sort-by=.n=UP"],
     &["--set", "novalue"],
@@ -588,6 +598,12 @@ impl Property for C20 {
                             || o[0].starts_with("--null-keyword")
                             || o[0].starts_with("--group-by")
                             || o[0] == "--merge")
+                    });
+                }
+                if bad[0] == "--null-keyword=null" || bad[0] == "--string-prefix=" {
+                    // invalid only where the output is JSON
+                    case.opts.retain(|o| {
+                        !(o[0] == "-o" || o[0].starts_with("--output-style") || o[0].starts_with("--null-keyword") || o[0].starts_with("--string-prefix") || o[0] == "--headers")
                     });
                 }
                 if bad[0] == "--headers" {
